@@ -116,6 +116,13 @@ def directed(rng):
         add('stop-note-in-batch-%d' % v, {'conc': 2 + v, 'recvUnblocks': bool(v % 2)}, [S(note(), call(1)), D, hret('m1.2'), D, dict(a='stop'), dict(a='peerclose'), D, hret('m1.1'), D])
         add('eof-note-in-batch-%d' % v, {'conc': 3}, [S(note(), note(), call(1)), D, hret('m1.3'), hret('m1.2'), D, dict(a='peerclose'), D, hret('m1.1'), D])
         # a running call of a mixed batch must not hold back later messages once the batch's notification is done
+        # ... wherever the notification stands in its message (the last runnable member runs on the batch's own goroutine)
+        add('batch-note-last-then-call-%d' % v, {'conc': 3}, [[S(call(1), note()), S(call(1), call(2), note()), S(note(), call(1), note())][v], D, hret('m1.%d' % [2, 3, 3][v]), D] + ([hret('m1.1'), D] if v == 2 else [])
+                                                              + [S(call(3)), D, S(note()), D, hret('m2.1'), hret('m3.1'), D, hret('m1.%d' % [1, 1, 2][v]), D] + ([hret('m1.2'), D] if v == 1 else []))
+        # the limit holds across the stop: what is still to be handled afterwards (retained notifications, a message waiting at
+        # the barrier) shares the slots with the handlers that are still running
+        add('limit-across-stop-%d' % v, {'conc': 2, 'recvUnblocks': bool(v % 2)}, [S(call(1)), D, S(note()), D, S(note(), note()), D] + ([S(note()), D] if v == 2 else [])
+                                                 + [[dict(a='stop'), dict(a='peerclose'), dict(a='stop')][v], D, hret('m2.1'), D, hret('m3.1'), D, hret('m3.2'), D] + ([hret('m4.1'), D] if v == 2 else []) + [hret('m1.1'), D])
         add('mixed-batch-then-call-%d' % v, {'conc': 3}, [S(note(), call(1)), D, hret('m1.1'), D, S(call(2)), D, S(note()), D, hret('m2.1'), hret('m3.1'), D, hret('m1.2'), D])
         # malformed input answered directly by the reader while a reply is about to be delivered / the server is stopped
         add('direrr-vs-deliver-%d' % v, {}, [S(call(1)), D, dict(a='send', kind=['garbage', 'empty', 'garbage'][v]), hret('m1.1'), dict(a='probe'), D])
@@ -226,6 +233,10 @@ def directed(rng):
         # a handler that waits for the reply to its own callback is still executing: its slot is not for anybody else
         add('cb-holds-slot-%d' % v, {'push': True, 'conc': 1 + v % 2}, [S(call(1)), D] + ([S(call(3)), D] if v % 2 else []) + [dict(a='callback', c='cbA', **{'from': 'm1.1'}), D,
                                                                       S(call(2)), D, S(note()), D, S(reply(1, v)), D, hret('m1.1'), D, hret('m%d.1' % (2 + v % 2)), D])
+        # a callback whose request could not be sent is over; the next one is a callback of its own (its reply reaches it, whatever
+        # the watcher of the failed one does afterwards)
+        add('cb-sendfail-then-next-%d' % v, P, [dict(a='sendfail'), dict(a='callback', c='cbA', noctx=bool(v % 2)), dict(a='sendheal'), dict(a='callback', c='cbB'), D,
+                                               S(reply(1, v)), S(reply(2, v)), D, dict(a='callback', c='cbC'), D, S(reply(2, v), reply(3, v)), D])
         add('cb-note-%d' % v, P, [S(note()), D, dict(a='callback', c='cbA', **{'from': 'm1.1'}), S(call(1)), D, S(reply(1, v)), D, hret('m1.1'), D, hret('m2.1'), D])
         add('cb-two-%d' % v, P, [dict(a='callback', c='cbA'), dict(a='callback', c='cbB'), D, S(reply(2, v)), D, S(reply(1)), D])
         add('cb-stop-%d' % v, P, [dict(a='callback', c='cbA'), D, dict(a='stop'), D, dict(a='callback', c='cbB'), dict(a='notify'), D])
